@@ -275,6 +275,7 @@ def run_proc(fs, pspec, share=None):
     hist["handed"] = {fs.rel(k): "".join(v) for k, v in fs.handed.items()}
     hist["faults"] = [dict(f) for f in fs.faults]
     hist["nsys"] = fs.nsys
+    hist["sched_points"] = fs.sched_points
     hist["snap"] = fs.snapshot()
     hist["set_order_entries"] = proc.set_order_entries
     hist["entropy_calls"] = proc.entropy_used()
